@@ -1,6 +1,9 @@
 package harness
 
 import (
+	"bytes"
+	"fmt"
+	"os"
 	"testing"
 
 	"github.com/ulikunitz/lz"
@@ -261,3 +264,195 @@ func TestC06Large(t *testing.T) { decLargeProp(t, "C06", true) }
 func TestC07Large(t *testing.T) { decLargeProp(t, "C07", false) }
 func TestC17Large(t *testing.T) { decLargeProp(t, "C17", true) }
 func TestC18Large(t *testing.T) { decLargeProp(t, "C18", true) }
+
+// ---------------------------------------------------------------- volume
+
+// patternWriter checks what a Decoder hands out against the periodic stream.
+type patternWriter struct {
+	pat []byte
+	pos int64
+	bad string
+}
+
+func (w *patternWriter) Write(p []byte) (int, error) {
+	for i, c := range p {
+		if w.bad != "" {
+			break
+		}
+		if c != w.pat[(w.pos+int64(i))%int64(len(w.pat))] {
+			w.bad = fmt.Sprintf("byte at stream offset %d is %#x, the stream has %#x there", w.pos+int64(i), c, w.pat[(w.pos+int64(i))%int64(len(w.pat))])
+		}
+	}
+	w.pos += int64(len(p))
+	return len(p), nil
+}
+
+// TestC04Volume drives one DecoderBuffer (and, with VERIF_VOLUME_DEC=1, one
+// Decoder) past 2^32 bytes of output without a Reset: a periodic stream
+// (period 251) written with window-sized matches, read out and compared
+// completely; around and behind the 4 GiB mark a generated mix of WriteByte,
+// Write, WriteMatch and WriteBlock with offsets up to the window. The total
+// position (Off) leaves 32 bits; nothing the decoder does may depend on that.
+func TestC04Volume(t *testing.T) {
+	st := statsFor("C04")
+	rapid.Check(t, func(t *rapid.T) {
+		const period = 251
+		pat := make([]byte, period)
+		x := rapid.Uint64().Draw(t, "patSeed")
+		for i := range pat {
+			x += 0x9e3779b97f4a7c15
+			z := x
+			z = (z ^ (z >> 30)) * 0xbf58476d1ce4e5b9
+			pat[i] = byte(z >> 32)
+		}
+		at := func(p int64) byte { return pat[p%period] }
+		var big []byte // the pattern repeated, for comparisons at memcmp speed
+		w := rapid.SampledFrom([]int{65536, 1 << 20, 60_000}).Draw(t, "win")
+		useDec := os.Getenv("VERIF_VOLUME_DEC") == "1" && rapid.Bool().Draw(t, "decoder")
+		var buf lz.DecoderBuffer
+		var dec *lz.Decoder
+		pw := &patternWriter{pat: pat}
+		if useDec {
+			var err error
+			if dec, err = lz.NewDecoder(pw, lz.DecoderConfig{WindowSize: w}); err != nil {
+				t.Fatalf("NewDecoder: %v", err)
+			}
+		} else if err := buf.Init(lz.DecoderConfig{WindowSize: w}); err != nil {
+			t.Fatalf("Init: %v", err)
+		}
+		var total int64
+		scratch := make([]byte, 2*w+16)
+		for len(big) < 2*w+16+2*period {
+			big = append(big, pat...)
+		}
+		fail := func(format string, a ...any) {
+			msg := fmt.Sprintf("after %d bytes (window %d, decoder %v): ", total, w, useDec) + fmt.Sprintf(format, a...)
+			recordFailure("C04", "volume", map[string]any{"patSeed": x, "win": w, "total": total, "decoder": useDec}, msg)
+			t.Fatalf("C04 violated (volume): %s", msg)
+		}
+		drain := func() {
+			if useDec {
+				if pw.bad != "" {
+					fail("%s", pw.bad)
+				}
+				return
+			}
+			for {
+				n, _ := buf.Read(scratch)
+				if n == 0 {
+					break
+				}
+				base := total - int64(len(buf.Data)-buf.R) - int64(n)
+				if !bytes.Equal(scratch[:n], big[base%period:int(base%period)+n]) {
+					for i := 0; i < n; i++ {
+						if scratch[i] != at(base+int64(i)) {
+							fail("Read returned %#x at stream offset %d, the stream has %#x", scratch[i], base+int64(i), at(base+int64(i)))
+						}
+					}
+				}
+			}
+			if buf.Off != total {
+				recordFailure("C17", "volume", map[string]any{"total": total}, "Off")
+				fail("Off=%d, %d bytes were written", buf.Off, total)
+			}
+		}
+		// litsAt: n stream bytes from position p on
+		litsAt := func(p int64, n int) []byte {
+			return append([]byte(nil), big[p%period:int(p%period)+n]...)
+		}
+		lits := func(n int) []byte { return litsAt(total, n) }
+		block := func(seqs []lz.Seq, l []byte) {
+			var n, k, ll int
+			var err error
+			if useDec {
+				n, k, ll, err = dec.WriteBlock(lz.Block{Sequences: seqs, Literals: l})
+			} else {
+				n, k, ll, err = buf.WriteBlock(lz.Block{Sequences: seqs, Literals: l})
+			}
+			want := len(l)
+			for _, s := range seqs {
+				want += int(s.MatchLen)
+			}
+			if err != nil || k != len(seqs) || ll != len(l) || n != want {
+				fail("WriteBlock(%v, %d literals) = (%d, %d, %d, %v)", seqs, len(l), n, k, ll, err)
+			}
+			total += int64(n)
+		}
+		// start: a few periods as literals
+		block(nil, lits(4*period))
+		drain()
+		// bulk: window-sized matches up to shortly before 2^32
+		chunk := w - w%period
+		for total < 1<<32-int64(3*w) {
+			block([]lz.Seq{{MatchLen: uint32(chunk), Offset: period * uint32(1+total%3)}}, nil)
+			drain()
+		}
+		// around and behind the mark: a generated mix
+		ops := 0
+		for total < 1<<32+int64(2*w) {
+			ops++
+			maxOff := int(minInt64(total, int64(w))) / period
+			off := func() uint32 {
+				k := 1
+				switch rapid.IntRange(0, 2).Draw(t, "offKind") {
+				case 0:
+					k = maxOff
+				case 1:
+					k = rapid.IntRange(1, maxOff).Draw(t, "offK")
+				}
+				return uint32(k * period)
+			}
+			switch rapid.IntRange(0, 3).Draw(t, "op") {
+			case 0:
+				ll := rapid.IntRange(0, 40).Draw(t, "ll")
+				m := rapid.IntRange(0, 9000).Draw(t, "m")
+				l := lits(ll)
+				l = append(l, litsAt(total+int64(ll+m), rapid.IntRange(0, 20).Draw(t, "trail"))...)
+				block([]lz.Seq{{LitLen: uint32(ll), MatchLen: uint32(m), Offset: off()}}, l)
+			case 1:
+				m := rapid.IntRange(1, chunk).Draw(t, "mBig")
+				block([]lz.Seq{{MatchLen: uint32(m), Offset: off()}}, nil)
+			case 2:
+				if useDec {
+					block(nil, lits(rapid.IntRange(1, 3000).Draw(t, "wlen")))
+				} else {
+					m, o := uint32(rapid.IntRange(0, 5000).Draw(t, "wm")), off()
+					n, err := buf.WriteMatch(m, o)
+					if err != nil || n != int(m) {
+						fail("WriteMatch(%d, %d) = (%d, %v)", m, o, n, err)
+					}
+					total += int64(n)
+				}
+			default:
+				c := at(total)
+				var err error
+				if useDec {
+					err = dec.WriteByte(c)
+				} else {
+					err = buf.WriteByte(c)
+				}
+				if err != nil {
+					fail("WriteByte = %v", err)
+				}
+				total++
+			}
+			drain()
+		}
+		if useDec {
+			if err := dec.Flush(); err != nil || pw.pos != total {
+				fail("Flush = %v, the writer holds %d bytes", err, pw.pos)
+			}
+			drain()
+		}
+		st.eval([]string{"volume>4GiB"}, true, x^uint64(w), "volume", func() any {
+			return map[string]any{"window": w, "bytes": total, "generated_ops_around_2^32": ops, "decoder": useDec}
+		})
+	})
+}
+
+func minInt64(a, b int64) int64 {
+	if a < b {
+		return a
+	}
+	return b
+}
